@@ -91,10 +91,11 @@ static const char *pre_lp[] = { "", "min x\nst\n", "max x + y\nst\nc1: x + y <= 
 #define MPS_R "NAME p\nROWS\n N obj\n L r1\n G r2\n"
 #define MPS_C MPS_R "COLUMNS\n c1 obj 1 r1 1\n c1 r2 1\n c2 obj 2 r1 1\n"
 static const char *pre_mps[] = { "", "NAME p\nROWS\n", MPS_R "COLUMNS\n", MPS_C "RHS\n", MPS_C "RHS\n rhs r1 4 r2 1\nRANGES\n", MPS_C "RHS\n rhs r1 4 r2 1\nBOUNDS\n",
-	MPS_R "COLUMNS\n S1 s1 'MARKER' 'SOSORG'\n" };
+	MPS_R "COLUMNS\n S1 s1 'MARKER' 'SOSORG'\n",
+	"NAME p\nROWS\n N obj\n N obj2\n L r1\n G r2\nCOLUMNS\n" };     /* a second free row: columns that live only in it are dropped by the reader */
 static const char *pre_bas[] = { "", "NAME verif\n", "NAME verif\n XU x c1\n" };
 static const char **pre_of[3] = { pre_lp, pre_mps, pre_bas };
-static const int pre_n[3] = { 4, 7, 3 };
+static const int pre_n[3] = { 4, 8, 3 };
 /* MPS / basis tokens that belong in column 1 (everything else is indented by the renderer) */
 static int is_key (const char *t)
 {
@@ -300,12 +301,12 @@ static int gen_tok (long item)
 
 /* ------------------------------------------------------------ mode=rec: every sequence of <= k whole records (lines) after each valid prefix
  * (sections out of order, repeated and interleaved sections, records of one section inside another, a second ENDATA ...) */
-static const char *rec_mps[] = { "ROWS\n", " N obj2\n", " L r3\n", "COLUMNS\n", " c3 obj 1 r1 1\n", " c4 obj 2 r2 1\n", "RHS\n", " rhs r1 4\n", "RANGES\n", " rng r1 2\n", " rng r2 -1\n",
+static const char *rec_mps[] = { "ROWS\n", " N obj2\n", " L r3\n", "COLUMNS\n", " c3 obj 1 r1 1\n", " c4 obj 2 r2 1\n", " c5 obj2 7\n", " c3 r1 2\n", "RHS\n", " rhs r1 4\n", "RANGES\n", " rng r1 2\n", " rng r2 -1\n",
 	"BOUNDS\n", " UP bnd c1 4\n", " UP bnd c3 5\n", " LO bnd c4 -2\n", " FR bnd c4\n", "OBJSENSE\n MAX\n", "OBJNAME\n r1\n", "ENDATA\n" };
 static const char *rec_lp[] = { "max x + y\n", "min\n", "st\n", "c2: x - y >= 1\n", "c3: z <= 2\n", "-1 <= x + y <= 3\n", "bounds\n", "x <= 4\n", "-2 <= z <= 2\n", "z free\n", "y = 1\n", "integer\n", "x z\n", "end\n" };
 static const char *rec_bas[] = { "NAME verif\n", " XU x c1\n", " XL y c2\n", " UL x\n", " LL y\n", " XU y c1\n", " UL y\n", "ENDATA\n" };
 static const char **rec_of[3] = { rec_lp, rec_mps, rec_bas };
-static const int rec_n[3] = { 14, 19, 8 };
+static const int rec_n[3] = { 14, 21, 8 };
 static int gen_rec (long item)
 {
 	int f = o_fmt, A = rec_n[f];
